@@ -4,8 +4,14 @@ use super::*;
 use std::sync::Arc;
 
 pub fn loop_case(name: &'static str, input: Shape, layers: Vec<L>, a: usize, b: usize, k: usize, inskips: bool, acc: Acc) -> Case {
+    loop_case_skipacc(name, input, layers, a, b, k, inskips, acc, Acc::Add)
+}
+
+/// `skipacc`: the network's *skip-connection* accumulation — there is no skip connection in these networks, so it must
+/// not matter (the loop's input skip always adds the original input)
+pub fn loop_case_skipacc(name: &'static str, input: Shape, layers: Vec<L>, a: usize, b: usize, k: usize, inskips: bool, acc: Acc, skipacc: Acc) -> Case {
     Case {
-        id: format!("C17/{}/loop{}to{}x{}/inskips{}/{}", name, b, a, k, inskips as u8, acc.name()),
+        id: format!("C17/{}/loop{}to{}x{}/inskips{}/{}{}", name, b, a, k, inskips as u8, acc.name(), if skipacc == Acc::Add { String::new() } else { format!("/skip-accumulation-{}", skipacc.name()) }),
         property: "C17",
         family: "Network::forward (loop connection)",
         class: format!("inskips{}-{}", inskips as u8, acc.name()),
@@ -15,7 +21,7 @@ pub fn loop_case(name: &'static str, input: Shape, layers: Vec<L>, a: usize, b: 
             let mut net = build_net(input.clone(), &layers);
             symbolize(ctx, &mut net, "");
             net.loopback(b, a, k, Arc::new(|x| lit(1.0) / x), inskips);
-            net.set_accumulation(Accumulation::Add, acc.lib());
+            net.set_accumulation(skipacc.lib(), acc.lib());
             let x = input_tensor(ctx, &input, "x");
             let y = net.predict(&x);
             // oracle: explicit iteration with the layers' public forward
@@ -107,6 +113,13 @@ pub fn cases(tier: Tier, seed: u64) -> Vec<Case> {
                     out.push(loop_case(name, input.clone(), layers.clone(), *a, *b, k, inskips, acc));
                 }
             }
+        }
+    }
+    for (skipacc, acc, k) in [(Acc::Multiply, Acc::Add, 1usize), (Acc::Mean, Acc::Mean, 2), (Acc::Overwrite, Acc::Add, 1), (Acc::Subtract, Acc::Multiply, 1)] {
+        if full || skipacc == Acc::Multiply || skipacc == Acc::Mean {
+            let (name, input, layers, a, b) = &nets[0];
+            out.push(loop_case_skipacc(name, input.clone(), layers.clone(), *a, *b, k, true, acc, skipacc));
+            out.push(loop_case_skipacc(name, input.clone(), layers.clone(), *a, *b, k, false, acc, skipacc));
         }
     }
     out.push(control_case());
